@@ -856,6 +856,9 @@ func runMPSC(cfg mpscCfg) (violation string, st map[string]int64) {
 	beginOf := make([][]int64, cfg.Producers) // begin stamps of accepted pushes
 	refusals := make([][]refusal, cfg.Producers)
 	accepted := make([]int, cfg.Producers)
+	endOf := make([][]int64, cfg.Producers) // return stamps of accepted pushes, by sequence number
+	type emptyAns struct{ call, ret int64 }
+	var empties []emptyAns // TryPop calls that answered "empty" while producers were still running
 	var producersDone atomic.Int32
 	var wg sync.WaitGroup
 	for p := 0; p < cfg.Producers; p++ {
@@ -870,6 +873,7 @@ func runMPSC(cfg mpscCfg) (violation string, st map[string]int64) {
 				for {
 					t0 := now()
 					if q.TryPush(e) {
+						endOf[p] = append(endOf[p], now())
 						beginOf[p] = append(beginOf[p], t0)
 						accepted[p]++
 						progress.Add(1)
@@ -900,8 +904,12 @@ func runMPSC(cfg mpscCfg) (violation string, st map[string]int64) {
 				runtime.Gosched()
 				continue
 			}
+			c0 := now()
 			e := q.TryPop()
 			if e == nil {
+				if len(empties) < 4000 {
+					empties = append(empties, emptyAns{c0, now()})
+				}
 				if int(producersDone.Load()) == cfg.Producers {
 					// final drain
 					for e := q.TryPop(); e != nil; e = q.TryPop() {
@@ -962,6 +970,33 @@ func runMPSC(cfg mpscCfg) (violation string, st map[string]int64) {
 	}
 	if !q.IsEmpty() || q.Size() != 0 {
 		return fmt.Sprintf("after the final drain Size()=%d IsEmpty=%v", q.Size(), q.IsEmpty()), st
+	}
+	// "empty" must be truthful: an element whose push had returned before TryPop was called and which
+	// was delivered only after that TryPop returned was in the buffer all along
+	{
+		type pe struct{ end, pop int64; e mpscElem }
+		var els []pe
+		for i, e := range popped {
+			if e.Seq < len(endOf[e.P]) {
+				els = append(els, pe{endOf[e.P][e.Seq], popDone[i], e})
+			}
+		}
+		sort.Slice(els, func(i, j int) bool { return els[i].end < els[j].end })
+		prefMax := make([]int, len(els)+1) // index of the element with the latest pop among the first i
+		prefMax[0] = -1
+		for i := range els {
+			prefMax[i+1] = prefMax[i]
+			if prefMax[i] < 0 || els[i].pop > els[prefMax[i]].pop {
+				prefMax[i+1] = i
+			}
+		}
+		st["empty_answers_checked"] = int64(len(empties))
+		for _, a := range empties {
+			n := sort.Search(len(els), func(i int) bool { return els[i].end >= a.call })
+			if j := prefMax[n]; j >= 0 && els[j].pop > a.ret {
+				return fmt.Sprintf("TryPop called at %d answered empty at %d although element (producer %d, seq %d), whose push had returned at %d, was still in the buffer (it was delivered at %d)", a.call, a.ret, els[j].e.P, els[j].e.Seq, els[j].end, els[j].pop), st
+			}
+		}
 	}
 	// refusals must be justified
 	var begins []int64
@@ -1058,6 +1093,12 @@ func cacheOrder(seed uint64) (violation string, writes, notifications int64) {
 		}(p)
 	}
 	wg.Wait()
+	// half of the cases: the cache is cleared while write events are still pending in the buffer (the
+	// executor has run nothing): the clear consumes them - applying them, not dropping them
+	cleared := r.Chance(1, 2)
+	if cleared {
+		c.InvalidateAll()
+	}
 	c.CleanUp()
 	// run the queued tasks in the order they were submitted (notifications are queued in replay order)
 	for {
@@ -1073,7 +1114,15 @@ func cacheOrder(seed uint64) (violation string, writes, notifications int64) {
 	}
 	last := map[int]int{}
 	count := map[int]int{}
+	invalidated := map[int]int{}
 	for _, e := range events {
+		if cleared && e.Cause == otter.CauseInvalidation {
+			invalidated[e.Key]++
+			if e.Value <= last[e.Key] {
+				return fmt.Sprintf("key %d: the value %d removed by InvalidateAll was reported although the later value %d had already been reported as replaced", e.Key, e.Value, last[e.Key]), int64(producers * per), int64(len(events))
+			}
+			continue
+		}
 		if e.Cause != otter.CauseReplacement {
 			return fmt.Sprintf("unexpected deletion event %+v", e), int64(producers * per), int64(len(events))
 		}
@@ -1090,8 +1139,22 @@ func cacheOrder(seed uint64) (violation string, writes, notifications int64) {
 				n++
 			}
 			if count[p*10+k] != n-1 {
-				return fmt.Sprintf("key %d was overwritten %d times but %d replacements were reported", p*10+k, n-1, count[p*10+k]), int64(producers * per), int64(len(events))
+				return fmt.Sprintf("key %d was overwritten %d times but %d replacements were reported (InvalidateAll with pending write events: %v)", p*10+k, n-1, count[p*10+k], cleared), int64(producers * per), int64(len(events))
 			}
+			if cleared {
+				if invalidated[p*10+k] != 1 {
+					return fmt.Sprintf("key %d was present when InvalidateAll ran with write events still pending, and its removal was reported %d times", p*10+k, invalidated[p*10+k]), int64(producers * per), int64(len(events))
+				}
+				if _, ok := c.GetEntryQuietly(p*10 + k); ok {
+					return fmt.Sprintf("key %d is still present after InvalidateAll", p*10+k), int64(producers * per), int64(len(events))
+				}
+			}
+		}
+	}
+	if cleared {
+		// no pending add may have been forgotten by the policy: its accounting starts from zero again
+		if n := c.WeightedSize(); n != 0 {
+			return fmt.Sprintf("after InvalidateAll (write events were pending) and a CleanUp the policy still accounts for weight %d in an empty cache", n), int64(producers * per), int64(len(events))
 		}
 	}
 	return "", int64(producers * per), int64(len(events))
@@ -1141,6 +1204,17 @@ func RunC16(col *core.Collector, tier, variant string, seed uint64, shard, nshar
 				if v := mpscSequential(init, max); v != "" {
 					col.Violation(core.Violation{Property: "C16", Signature: "mpsc-seq:" + sigText(v), Detail: v})
 				}
+			}
+		}
+	}
+	if shard == 1%nshards {
+		// large capacities: values just above a power of two beyond 2^16 (the rounding and the chunk
+		// masks are computed from them), filled up to the first refusal and drained in order
+		for _, pr := range [][2]uint32{{2, 65536}, {2, 65537}, {65537, 131073}, {4, 131073}, {1 << 16, 1 << 17}, {1024, 262145}, {16, 1048579}, {70000, 200000}} {
+			col.Eval(1)
+			col.Count("large_capacity_pairs", 1)
+			if v := mpscSequential(pr[0], pr[1]); v != "" {
+				col.Violation(core.Violation{Property: "C16", Signature: "mpsc-seq:" + sigText(v), Detail: v})
 			}
 		}
 	}
